@@ -11,8 +11,9 @@
     * reading any string: no panic site of the token readers or of `read` is reachable;
     * the string writer never panics on the events of the reader or of the traversal;
     * the hydrogen-count queries cannot overflow: the result always fits (≤ 9) whatever the degree.
+    * the graph builder never panics on the events of the reader or of the traversal.
   Not yet theorems (covered by the correspondence harness running the real code under catch_unwind):
-    * Builder / Trace on reader events, the traversal's internal `expect("chain head")`;
+    * Trace on reader events, the traversal's internal `expect("chain head")`;
   Known findings (not provable because false): more than 99 simultaneously open ring closures
   (`expect("rnum")`, D17) and stack exhaustion on deeply nested parentheses (D18).
 -/
@@ -36,6 +37,13 @@ theorem rnum_reader_no_panic (s : Str) : ∀ site, readRnum s ≠ .panic site :=
 
 /-- reading into the string writer: the writer's `expect("last")` / `panic!("overpop")` are unreachable -/
 theorem read_into_writer_no_panic (s : Str) : (write? (read s).1).isSome := C08.reader_never_panics_writer s
+
+/-- reading into the graph builder, and building: no `expect("last on stack")`, no index out of range, no
+    `expect("edge for rnum")` -/
+theorem read_into_builder_no_panic (s : Str) : (build? (read s).1).isSome := C08.reader_never_panics_builder s
+
+/-- traversing any adjacency list whatsoever into the graph builder -/
+theorem walk_into_builder_no_panic (g : Graph) : (build? (walk g).1).isSome := C08.walker_never_panics_builder g
 
 /-- traversing any adjacency list whatsoever into the string writer -/
 theorem walk_into_writer_no_panic (g : Graph) : (write? (walk g).1).isSome := C08.walker_never_panics_writer g
